@@ -1,6 +1,7 @@
 package main
 
 import (
+	"net"
 	"time"
 	"net/http/httptest"
 	"net/http"
@@ -339,6 +340,57 @@ func mirrorExec(c *Ctx, op string) {
 			c.PropFail("mirror-not-identical", "the bytes at the target are not a prefix of the source ware", op)
 		}
 	}
+	// ---- the store model (Rio/Model/MirrorStore.lean): answer, what the target alone then serves, mirroring again
+	if !tgtFull && !tgtBlocked && !tgtShard && !tgtDangling && firstHolder != "dirware" && res != "panic" {
+		kind := map[string]string{"ca": "ca", "file": "mono"}[tgtKind]
+		tstate := "empty"
+		if tgtOther {
+			tstate = "other"
+		}
+		srcTok := ""
+		switch firstHolder {
+		case "good", "httpgood":
+			srcTok = "good"
+		case "mislabelled":
+			srcTok = "other"
+		case "corrupt":
+			srcTok = "corrupt"
+			if fmtName == "tar" { // where does the truncated copy break off: between entries, or inside a file body?
+				if _, _, toks := decodeStored(good[:len(good)/2]); strings.HasSuffix(toks, ",0") && len(good) > 20 {
+					srcTok = "corrupt-body"
+				}
+			}
+		case "":
+			if pk := pickOnly(id, sources); strings.HasPrefix(pk, "err ") {
+				srcTok = "none:" + strings.TrimPrefix(pk, "err ")
+			}
+		}
+		if srcTok != "" {
+			impl := "res=" + res + " alone=- again=-"
+			if res == "ok" {
+				id3, err3, pan3 := safeCall(func() (api.WareID, error) {
+					return fn.unpack(ctx, id, filepath.Join(base, "dst-model"), uf, rio.Placement_Direct, []api.WarehouseLocation{whAddr(tgtKind, tgt)}, rio.Monitor{})
+				})
+				alone := strings.Fields(resTok(id3, err3, pan3))
+				al := alone[0]
+				if al == "err" {
+					al = "err " + alone[1]
+				}
+				_, err4, pan4 := safeCall(func() (api.WareID, error) {
+					return fn.mirror(ctx, id, whAddr(tgtKind, tgt), nil, rio.Monitor{})
+				})
+				ag := "ok"
+				if pan4 != "" {
+					ag = "panic"
+				} else if err4 != nil {
+					ag = "err " + catOf(err4)
+				}
+				impl = "res=ok alone=" + al + " again=" + ag
+			}
+			c.EmitR(op+" #store", fmt.Sprintf("mirrorstore %s %s %s", kind, tstate, srcTok), impl)
+			c.H("store:" + kind + ":" + tstate + ":" + strings.Split(srcTok, ":")[0])
+		}
+	}
 	// ---- cancellation at every poll of the walk (and just after it): the answer and the target agree — a mirror that
 	// reports failure leaves the target without W, one that reports success leaves W there
 	if firstHolder == "good" && !tgtFull && !tgtBlocked && !otherAtAddr {
@@ -381,14 +433,87 @@ func pickOnly(id api.WareID, sources []api.WarehouseLocation) string {
 	return pickDirect(id, sources)
 }
 
+// mirrorBrokenChunk: the source is an http server whose chunked response carries the whole ware and then breaks its
+// framing (garbage where the next chunk size should be): the client's last read hands over data *and* an error. Whatever
+// mirror answers, the target agrees: success ⇒ the address holds exactly the ware's bytes; failure ⇒ it holds nothing.
+// Recipe: "mirror-brokenchunk <tar|zip> <ca|file>".
+func mirrorBrokenChunk(c *Ctx, op string) {
+	f := strings.Fields(op)
+	fmtName, tgtKind := f[1], f[2]
+	caseCounter++
+	base := filepath.Join(c.Work, fmt.Sprintf("mbc%d", caseCounter))
+	defer rmrf(base)
+	src, wh, tgt := filepath.Join(base, "src"), filepath.Join(base, "wh"), filepath.Join(base, "tgt")
+	os.MkdirAll(src, 0755)
+	os.MkdirAll(wh, 0755)
+	os.MkdirAll(tgt, 0755)
+	os.Setenv("RIO_CACHE", filepath.Join(base, "cache"))
+	os.WriteFile(filepath.Join(src, "f"), []byte("payload"), 0644)
+	fn := funcsFor(fmtName)
+	ctx := context.Background()
+	id, err := fn.pack(ctx, api.PackType(fmtName), src, api.MustParseFilesetPackFilter(losslessPackStr), whAddr("file", wh), rio.Monitor{})
+	if err != nil {
+		c.EmitR(op, "skip", "skip")
+		return
+	}
+	ware, _ := os.ReadFile(storedWarePath("file", wh, id))
+	ln, err := net.Listen("tcp", "127.0.0.1:0")
+	if err != nil {
+		c.EmitR(op, "skip", "skip")
+		return
+	}
+	defer ln.Close()
+	go func() {
+		for {
+			cn, e := ln.Accept()
+			if e != nil {
+				return
+			}
+			go func(cn net.Conn) {
+				defer cn.Close()
+				buf := make([]byte, 4096)
+				cn.Read(buf)
+				// one segment: headers, the chunk with the whole ware, and the broken framing arrive together
+				msg := []byte(fmt.Sprintf("HTTP/1.1 200 OK\r\nTransfer-Encoding: chunked\r\nContent-Type: application/octet-stream\r\n\r\n%x\r\n", len(ware)))
+				msg = append(append(msg, ware...), []byte("\r\nZZZ\r\n")...)
+				cn.Write(msg)
+				time.Sleep(50 * time.Millisecond)
+			}(cn)
+		}
+	}()
+	source := api.WarehouseLocation("http://" + ln.Addr().String() + "/ware")
+	_, merr, pan := safeCall(func() (api.WareID, error) {
+		return fn.mirror(ctx, id, whAddr(tgtKind, tgt), []api.WarehouseLocation{source}, rio.Monitor{})
+	})
+	got, ferr := os.ReadFile(storedWarePath(tgtKind, tgt, id))
+	c.EmitR(op, "skip", "skip")
+	switch {
+	case pan != "":
+		c.PropFail("mirror-failed", "mirror from a source with broken chunk framing panicked: "+pan, op)
+	case merr == nil && (ferr != nil || !bytes.Equal(got, ware)):
+		c.PropFail("partial-ware-served", fmt.Sprintf("mirror from an http source whose last read returned data together with an error answered success; the target's address holds %d of the ware's %d bytes", len(got), len(ware)), op)
+	case merr != nil && ferr == nil:
+		c.PropFail("mirror-target-polluted", "a failed mirror left an object at the target's final address", op)
+	}
+	c.H("brokenchunk:" + fmtName + ":" + tgtKind + ":" + catOf(merr))
+	c.Distinct(op)
+}
+
 func mirrorEngine(c *Ctx) {
 	if ls := replayLines(); ls != nil {
 		for _, op := range ls {
 			if strings.HasPrefix(op, "mirror ") && !strings.Contains(op, " #") {
 				mirrorExec(c, op)
+			} else if strings.HasPrefix(op, "mirror-brokenchunk ") {
+				mirrorBrokenChunk(c, op)
 			}
 		}
 		return
+	}
+	for _, fm := range []string{"tar", "zip"} {
+		for _, k := range []string{"ca", "file"} {
+			mirrorBrokenChunk(c, fmt.Sprintf("mirror-brokenchunk %s %s", fm, k))
+		}
 	}
 	n := 12
 	if c.Tier == "thorough" {
